@@ -553,5 +553,5 @@ func c10GotOffsets(ms []*client.Message) []int64 {
 }
 
 func TestVerifC10(t *testing.T) {
-	vfutil.Run(t, vfutil.Spec[c10Case]{ID: "C10", Gen: genC10, Run: runC10})
+	vfutil.Run(t, vfutil.Spec[c10Case]{ID: "C10", Gen: genC10, Run: runC10, Journal: true})
 }
